@@ -393,7 +393,15 @@ impl<S: futures::AsyncRead + futures::AsyncWrite + Unpin> ConnectionReader<S> {
         #[cfg(feature = "metrics")]
         self.total_scrape_requests_counter.increment(1);
 
-        let info_hashes = if let Some(info_hashes) = request.info_hashes {
+        // Treat an empty list of info hashes like a missing one. Otherwise, no
+        // swarm worker would be asked, no response would ever be sent and the
+        // pending scrape response entry would never be removed.
+        let opt_info_hashes = match request.info_hashes {
+            Some(ScrapeRequestInfoHashes::Multiple(info_hashes)) if info_hashes.is_empty() => None,
+            opt_info_hashes => opt_info_hashes,
+        };
+
+        let info_hashes = if let Some(info_hashes) = opt_info_hashes {
             info_hashes
         } else {
             // If request.info_hashes is empty, don't return scrape for all
